@@ -3,4 +3,4 @@ From Coq Require Import ExtrOcamlBasic.
 From Coq Require Extraction.
 From LJT Require Import model.T81Spec model.T81Arith.
 Extraction Language OCaml.
-Extraction "x_c04.ml" parse_raw stream_ok t81_parse t81_decode t81_qtables t81_decode_lossless t81_decode_progressive t81_emit_lossless t81_decode_arith t81_emit_arith t81_decode_arith_prog t81_emit_arith_prog qm_encode_all t81_emit layout emit_stream stuff read_ecs.
+Extraction "x_c04.ml" parse_raw stream_ok t81_parse t81_decode t81_qtables t81_decode_lossless t81_decode_progressive t81_emit_lossless t81_decode_arith t81_emit_arith t81_decode_arith_prog t81_emit_arith_prog qm_encode_all aenc_interval t81_emit layout emit_stream stuff read_ecs.
